@@ -79,6 +79,20 @@ def run(ctx):
             ops += [(k, v)] * rng.choice([1, 2, mx - 1 if mx > 1 else 1, mx, mx + 1, 2 * mx + 1, 3])
         notifs.append((mx, ops))
 
+    # monitor-loop level scripts: E unreadable file, G garbage file, M version mismatch, H healthy
+    polls = []
+    for n in (18, 19, 20, 21, 22):
+        for a in "EGM":
+            polls.append(a * n + "HEH")
+    for _ in range(60 if ctx.quick else 600):
+        s = ""
+        for _ in range(rng.randint(1, 6)):
+            s += rng.choice(["H", "HH", "E", "M", "G", "EM" * rng.choice([9, 10, 11]), "M" * rng.choice([19, 20, 21]),
+                             "".join(rng.choice("EGM") for _ in range(rng.choice([10, 19, 20, 25])))])
+        polls.append(s)
+    dseqs = [list(bits) for n in range(1, 7) for bits in itertools.product([False, True], repeat=n)] + \
+            [[False] * n + t for n in (1, 2, 19, 20, 21) for t in ([], [True], [True, False])]
+
     # ---------------- implementation ----------------
     lines = []
     for s in seqs + rnd:
@@ -87,12 +101,27 @@ def run(ctx):
         lines.append("R %d %d %s" % (n, 1 if bit else 0, "".join("1" if b else "0" for b in tail)))
     for mx, ops in notifs:
         lines.append("N %d %s" % (mx, " ".join("%s:%s" % kv for kv in ops)))
-    out = vplib.run_lines(bins["c20"], lines)
+    for s in dseqs:
+        lines.append("D " + "".join("1" if b else "0" for b in s))
+    for ps in polls:
+        lines.append("P " + ps)
+    # the poll-level leg writes /var/log/azure-proxy-agent/status.json: private mount namespace with a tmpfs
+    import subprocess
+    pr = subprocess.run(["unshare", "-m", "sh", "-c",
+                         "mount -t tmpfs tmpfs /var/log && mkdir -p /var/log/azure-proxy-agent && C20_PRIVATE_VAR_LOG=1 exec " + bins["c20"]],
+                        input="\n".join(lines) + "\n", capture_output=True, text=True, timeout=900)
+    if pr.returncode != 0:
+        raise RuntimeError("c20 driver failed (%d): %s" % (pr.returncode, pr.stderr[-2000:]))
+    out = pr.stdout.split("\n")[:-1]
     assert len(out) == len(lines), (len(out), len(lines))
     ns = len(seqs) + len(rnd)
     impl_S = [[int(c) for c in l] for l in out[:ns]]
     impl_R = [[int(c) for c in l] for l in out[ns:ns + len(longs)]]
-    impl_N = [[c == "1" for c in l] for l in out[ns + len(longs):]]
+    nN = len(notifs)
+    impl_N = [[c == "1" for c in l] for l in out[ns + len(longs):ns + len(longs) + nN]]
+    off = ns + len(longs) + nN
+    impl_D = [[int(c) for c in l] for l in out[off:off + len(dseqs)]]
+    impl_P = [[int(c) for c in l] if not l.startswith("!") else l for l in out[off + len(dseqs):]]
 
     # ---------------- model (vm_compute inside coqc) ----------------
     def blist(s):
@@ -113,8 +142,31 @@ def run(ctx):
         exprs.append("run_entries [] %s %d%%N" % (clist(["(%s, %s)" % (cb(k), cb(v)) for k, v in ops]), mx))
     model_N = vplib.coq_eval(ctx, "From GPA Require Import Health.", exprs, shard=20, name="notif")
 
+    exprs = ["map (fun l => map hstate_code (run ss_default l)) %s" % clist([blist(s) for s in dseqs])]
+    model_D = vplib.coq_eval(ctx, "From GPA Require Import Health.", exprs, name="dflt")[0]
+    pcode = {"E": "PollReadErr", "G": "PollReadErr", "M": "PollMismatch", "H": "PollHealthy"}
+    exprs = []
+    for i in range(0, len(polls), 40):
+        exprs.append("map (fun l => map hstate_code (run_polls ss_new l)) %s" % clist(
+            [clist([pcode[c] for c in ps], "poll") for ps in polls[i:i + 40]]))
+    model_P = [r for res in vplib.coq_eval(ctx, "From GPA Require Import Health.", exprs, shard=2, name="polls") for r in res]
+
     # ---------------- compare + property on the implementation's behaviour ----------------
     disagreements, failures = [], []
+    for s, mo, io in zip(dseqs, model_D, impl_D):
+        if mo != io:
+            disagreements.append({"case": {"from_default": True, "obs": s}, "model": mo, "impl": io})
+        why = prop_check_obs(s, io)
+        if why:
+            failures.append({"case": {"start": "StatusState::default()", "obs": "".join("1" if b else "0" for b in s)}, "why": why, "impl": io})
+    for ps, mo, io in zip(polls, model_P, impl_P):
+        if isinstance(io, str):
+            raise RuntimeError("poll-level leg could not run: " + io)
+        if mo != io:
+            disagreements.append({"case": {"polls": ps}, "model": mo, "impl": io})
+        why = prop_check_obs([c == "H" for c in ps], io)
+        if why:
+            failures.append({"case": {"polls (E unreadable, G garbage, M version mismatch, H healthy; one poll = one observation)": ps}, "why": why, "impl": io})
     for s, mo, io in zip(allS, model_S, impl_S):
         if mo != io:
             disagreements.append({"case": {"obs": s}, "model": mo, "impl": io})
@@ -144,20 +196,21 @@ def run(ctx):
             if why:
                 failures.append({"case": {"max": mx, "ops": ops}, "why": why, "impl": io})
 
-    total = len(allS) + len(longs) + len(notifs)
-    distinct = len({tuple(s) for s in allS if any(s) and not all(s)}) + len(longs) + len({(mx, tuple(o)) for mx, o in notifs})
+    total = len(allS) + len(longs) + len(notifs) + len(dseqs) + len(polls)
+    distinct = len({tuple(s) for s in allS if any(s) and not all(s)}) + len(longs) + len({(mx, tuple(o)) for mx, o in notifs}) + len(set(polls))
     ctx.coverage.update({
         "evaluations": total,
         "distinct_nontrivial": distinct,
         "traces_validated_against_impl": total - len(disagreements),
-        "rule": "all boolean observation sequences up to length %d (exhaustive) + random sequences with failing stretches of 18..22/40 + long runs of 19/20/21/39/9999/10000/10001/25000 equal observations followed by every tail up to length 3 + notification scripts (max in {1,2,3,5,120}); non-trivial = sequence with both outcomes (or a long run / a notification script), distinct by content" % maxlen,
+        "rule": "all boolean observation sequences up to length %d (exhaustive) + random sequences with failing stretches of 18..22/40 + long runs of 19/20/21/39/9999/10000/10001/25000 equal observations followed by every tail up to length 3 + notification scripts (max in {1,2,3,5,120}) + sequences started from StatusState::default() + monitor-loop level scripts (each poll = unreadable / garbage / version-mismatch / healthy aggregate status file, run through the real report_proxy_agent_aggregate_status); non-trivial = sequence with both outcomes (or a long run / a notification script), distinct by content" % maxlen,
         "exhaustive": False,
         "samples": [
             {"obs": "".join("1" if b else "0" for b in rnd[0]), "impl": impl_S[len(seqs)], "model": model_S[len(seqs)]},
             {"long": longs[40], "impl": impl_R[40], "model": model_R[40]},
             {"notify": notifs[0], "impl": impl_N[0], "model": model_N[0]},
+            {"polls": polls[3], "impl": impl_P[3], "model": model_P[3]},
         ],
-        "input_distribution": {"exhaustive_sequences": len(seqs), "random_sequences": len(rnd), "long_runs": len(longs), "notification_scripts": len(notifs),
+        "input_distribution": {"exhaustive_sequences": len(seqs), "random_sequences": len(rnd), "long_runs": len(longs), "notification_scripts": len(notifs), "default_start_sequences": len(dseqs), "poll_level_scripts": len(polls),
                                "error_outputs_seen": sum(o.count(2) for o in impl_S) + sum(o.count(2) for o in impl_R)},
     })
     ctx.assumptions += [
